@@ -10,9 +10,7 @@ use crate::ast::{
 use core::panic;
 
 use super::typecheck::Nominal;
-use super::{
-    Declaration, EnumDef, Error, PolytypeDeclaration, SolvedType as Type, StaticsContext, TypeKind,
-};
+use super::{Declaration, EnumDef, Error, PolytypeDeclaration, SolvedType as Type, StaticsContext};
 use crate::vm::AbraInt;
 use std::fmt::{self, Display};
 use std::rc::Rc;
@@ -775,7 +773,7 @@ impl Constructor {
         }
     }
 
-    fn arity(&self, matrix_tys: &[Type]) -> usize {
+    fn arity(&self, matrix_tys: &[Type], statics: &StaticsContext) -> usize {
         match self {
             Constructor::Bool(..)
             | Constructor::Int(..)
@@ -789,15 +787,14 @@ impl Constructor {
                 _ => panic!("unexpected type for product constructor: {}", matrix_tys[0]),
             },
             Constructor::Variant((enum_def, idx)) => {
-                let variant = &enum_def.variants[*idx];
-                match &variant.fields.len() {
-                    0 => 0,
-                    1 => match &*variant.fields[0].ty.kind {
-                        TypeKind::Void => 0,
-                        _ => 1,
-                    },
-                    // Multi-field variants are represented as a single tuple
-                    // in the matrix, so arity is 1.
+                // the payload is one column (several fields are a single tuple), unless it is
+                // void for the type arguments of this column (`option<void>`), as in field_tys
+                let ty_args = match &matrix_tys[0] {
+                    Type::Nominal(_, ty_args) => ty_args.as_slice(),
+                    _ => &[],
+                };
+                match data_ty_of_variant(statics, enum_def, *idx, ty_args) {
+                    Type::Void => 0,
                     _ => 1,
                 }
             }
@@ -1093,7 +1090,7 @@ fn compute_exhaustiveness_and_usefulness(
     }
 
     for ctor in present_ctors {
-        let ctor_arity = ctor.arity(&matrix.types);
+        let ctor_arity = ctor.arity(&matrix.types, statics);
 
         let mut specialized_matrix = matrix.specialize(&ctor, ctor_arity, statics);
 
